@@ -192,6 +192,12 @@ theorem ruleseqToSelector_some (r : Rule) (sel : CanonicalSelector) (h : ruleseq
           · rename_i tm htm
             exact ⟨⟨wd, hwd⟩, ⟨wk, hwk⟩, ⟨md, hmd⟩, ⟨yr, hyr⟩, ⟨tm, htm⟩⟩
 
+theorem dropWhile_all {α : Type} (p : α → Bool) (l : List α) (h : ∀ x ∈ l, p x = true) :
+    l.dropWhile p = [] := by
+  induction l with
+  | nil => rfl
+  | cons a l ih => simp [h a (by simp), ih (fun x hx => h x (List.mem_cons_of_mem _ hx))]
+
 theorem okRange_canon (lo hi : Nat) (h1 : lo ≤ 6) (h2 : hi ≤ 6) :
     okRange (.fixed lo hi 0 allTrue5 allTrue5) = true := by
   simp [okRange, allTrue5, i64Bound, h1, h2]
@@ -239,7 +245,7 @@ theorem canonical_okRule (r : Rule) (sel : CanonicalSelector) (h : ruleseqToSele
       simp only [okWeekdays, Bool.and_eq_true, List.all_eq_true]
       refine ⟨?_, ?_⟩
       · obtain ⟨lo, hi, hw0⟩ := hfix w (by simp)
-        have : (w :: ws).dropWhile (fun x => !isHoliday x) = [] := List.dropWhile_eq_nil_iff.mpr hnh
+        have : (w :: ws).dropWhile (fun x => !isHoliday x) = [] := dropWhile_all _ _ hnh
         simp only [okShape]
         rw [this]
         subst hw0
@@ -489,5 +495,51 @@ theorem normal_form_printable (e : Expr) (he : printableOut e = true) :
       Parser.parseChars (Print.expr n) = .ok (OH.Proofs.Syn.joinComments n) := by
   obtain ⟨n, hn⟩ := normalize_ok_of_printableOut e he
   exact ⟨n, hn, normalize_okRule e n (all_okRule_of_printableOut e he) hn, normal_form_roundtrip e n he hn⟩
+
+/-- when the normal form is not empty and starts with a `Normal` rule it is itself in the class
+`printableOut` (in the other two cases — see the witnesses below — `Display` writes `closed`, resp.
+does not write the first operator, and the reparse has a `Normal` first rule) -/
+theorem normal_form_printableOut (e n : Expr) (he : printableOut e = true) (h : normalizeM e = .ok n)
+    (hne : n ≠ []) (hop : ∀ r, n.head? = some r → r.op = .normal) : printableOut n = true := by
+  have hall := normalize_okRule e n (all_okRule_of_printableOut e he) h
+  cases n with
+  | nil => exact absurd rfl hne
+  | cons r rs =>
+    simp only [printableOut, List.isEmpty_cons, Bool.not_false, Bool.true_and, List.all_cons,
+      Bool.and_eq_true, List.all_eq_true, beq_iff_eq]
+    exact ⟨hop r rfl, hall r (by simp), fun x hx => hall x (List.mem_cons_of_mem _ hx)⟩
+
+/-! ## non-vacuity: the two cases outside `printableOut` do occur on parser output -/
+
+def noDay : DaySelector := ⟨[], [], [], []⟩
+
+/-- `closed || open` as the parser builds it -/
+def fallbackFirstInput : Expr :=
+  [⟨noDay, [TimeSpan.fullDay], .closed, .normal, []⟩, ⟨noDay, [TimeSpan.fullDay], .open, .fallback, []⟩]
+
+/-- `Mo closed` as the parser builds it -/
+def emptyNormalFormInput : Expr :=
+  [⟨{ noDay with weekday := [.fixed 0 0 0 allTrue5 allTrue5] }, [TimeSpan.fullDay], .closed, .normal, []⟩]
+
+theorem fallbackFirstInput_parsed : Parser.parse "closed || open" = .ok fallbackFirstInput := by
+  apply isOkEq_sound
+  decide +kernel
+
+theorem emptyNormalFormInput_parsed : Parser.parse "Mo closed" = .ok emptyNormalFormInput := by
+  apply isOkEq_sound
+  decide +kernel
+
+set_option maxRecDepth 100000 in
+/-- the normal form of `closed || open` is the single FALLBACK rule `|| open` (the canonical prefix
+`closed` paves nothing, so nothing is emitted): printed `24/7`, read back as a `Normal` rule -/
+theorem fallbackFirst_normalizes : printableOut fallbackFirstInput = true ∧
+    normalizeM fallbackFirstInput = .ok [⟨noDay, [TimeSpan.fullDay], .open, .fallback, []⟩] :=
+  ⟨by decide, normalizeG_of_F true 5 _ _ (by decide)⟩
+
+set_option maxRecDepth 100000 in
+/-- the normal form of `Mo closed` is EMPTY: printed `closed`, read back as the rule `closed` -/
+theorem emptyNormalForm_normalizes : printableOut emptyNormalFormInput = true ∧
+    normalizeM emptyNormalFormInput = .ok [] :=
+  ⟨by decide, normalizeG_of_F true 5 _ _ (by decide)⟩
 
 end OH.Proofs.NormPrintable
